@@ -5,7 +5,8 @@ Import ListNotations.
 Local Open Scope N_scope.
 
 Inductive aop := APush (k : N) | AShape | AClear.
-(* observed: len max_len max_ops successful have_output have_positions idx out_len serial scratch *)
+(* observed: len max_len max_ops successful have_output have_positions idx out_len serial scratch info.len() pos.len();
+   the model's content list is the whole storage: a UnicodeBuffer never holds entries past len *)
 Definition aobs := list N.
 
 Fixpoint push_n (b : abuf) (k : nat) (i : N) : abuf :=
@@ -26,11 +27,13 @@ Definition matches (o : aop) (b : abuf) (ob : aobs) : bool :=
   | APush _ =>
       (N.of_nat (length (a_text b)) =? nthN ob 0) && (a_max_len b =? nthN ob 1) && (a_max_ops b =? nthN ob 2)
       && (b2n (a_successful b) =? nthN ob 3)
+      && (N.of_nat (length (a_text b)) =? nthN ob 10) && (N.of_nat (length (a_text b)) =? nthN ob 11)
   | AShape => (a_max_len b =? nthN ob 1) && (a_max_ops b =? nthN ob 2) && (a_serial b =? nthN ob 8)
   | AClear =>
       (N.of_nat (length (a_text b)) =? nthN ob 0) && (a_max_len b =? nthN ob 1) && (a_max_ops b =? nthN ob 2)
       && (b2n (a_successful b) =? nthN ob 3) && (b2n (a_have_output b) =? nthN ob 4) && (b2n (a_have_positions b) =? nthN ob 5)
       && (a_idx b =? nthN ob 6) && (a_out_len b =? nthN ob 7) && (a_serial b =? nthN ob 8) && (a_scratch b =? nthN ob 9)
+      && (N.of_nat (length (a_text b)) =? nthN ob 10) && (N.of_nat (length (a_text b)) =? nthN ob 11)
   end.
 
 Fixpoint run_hist (b : abuf) (steps : list (aop * aobs)) (k : N) : N :=
